@@ -119,6 +119,46 @@ var pagers = []pager{
 			return toMsgs(r.Hails), r.NextPageToken, r.TotalSize, nil
 		}
 	}, key: func(m proto.Message) string { return m.(*traits.Hail).Id }},
+	{name: "ListHails(writable fields configured, generated ids)", setup: func(ids []string) ([]string, listFn) {
+		// the arrival and departure times are the driver's to maintain: the collection restricts what clients may write.
+		// Hails are created through the API, their ids are generated
+		m := hailpb.NewModel(resource.WithWritablePaths(&traits.Hail{}, "id", "origin", "destination", "state"))
+		s := hailpb.NewModelServer(m)
+		var got []string
+		for i := range ids {
+			h, err := s.CreateHail(ctx, &traits.CreateHailRequest{Name: "n", Hail: &traits.Hail{Origin: &traits.Hail_Location{DisplayName: fmt.Sprint("floor ", i)}}})
+			if err != nil {
+				panic(err)
+			}
+			got = append(got, h.Id)
+		}
+		return sorted(got), func(size int32, token string, mask *fieldmaskpb.FieldMask) ([]proto.Message, string, int32, error) {
+			r, err := s.ListHails(ctx, &traits.ListHailsRequest{Name: "n", PageSize: size, PageToken: token, ReadMask: mask})
+			if err != nil {
+				return nil, "", 0, err
+			}
+			return toMsgs(r.Hails), r.NextPageToken, r.TotalSize, nil
+		}
+	}, key: func(m proto.Message) string { return m.(*traits.Hail).Id }},
+	{name: "ListPublications(writable fields configured, generated ids)", setup: func(ids []string) ([]string, listFn) {
+		m := publicationpb.NewModel(resource.WithWritablePaths(&traits.Publication{}, "id", "body", "media_type", "audience"))
+		var got []string
+		for i := range ids {
+			p, err := m.CreatePublication(&traits.Publication{Body: []byte(fmt.Sprint("body ", i))})
+			if err != nil {
+				panic(err)
+			}
+			got = append(got, p.Id)
+		}
+		s := publicationpb.NewModelServer(m)
+		return sorted(got), func(size int32, token string, mask *fieldmaskpb.FieldMask) ([]proto.Message, string, int32, error) {
+			r, err := s.ListPublications(ctx, &traits.ListPublicationsRequest{Name: "n", PageSize: size, PageToken: token, ReadMask: mask})
+			if err != nil {
+				return nil, "", 0, err
+			}
+			return toMsgs(r.Publications), r.NextPageToken, r.TotalSize, nil
+		}
+	}, key: func(m proto.Message) string { return m.(*traits.Publication).Id }},
 	{name: "ListChildren", setup: func(ids []string) ([]string, listFn) {
 		m := parentpb.NewModel()
 		for _, id := range ids {
@@ -227,7 +267,8 @@ var pagers = []pager{
 }
 
 // keyField is the proto field each listing is keyed (and its page token built) by.
-var keyField = map[string]string{"ListModes": "id", "ListHails": "id", "ListHails(initial records, arrived long ago)": "id", "ListChildren": "name", "ListChildren(case-insensitive ids)": "name", "ListPublications": "id",
+var keyField = map[string]string{"ListModes": "id", "ListHails": "id", "ListHails(initial records, arrived long ago)": "id", "ListHails(writable fields configured, generated ids)": "id", "ListPublications(writable fields configured, generated ids)": "id",
+	"ListChildren": "name", "ListChildren(case-insensitive ids)": "name", "ListPublications": "id",
 	"ListConsumables": "name", "ListInventory": "consumable", "ListWasteRecords": "id"}
 
 func effectiveSize(size int32) int {
